@@ -62,6 +62,40 @@ def gen_nodes(rng, depth):
     return out
 
 
+def gen_dense(rng, depth):
+    """few names, many references: the same spelling is redefined between uses, shadowed by an inner scope and reached
+    again through chains ($a ... a = ... $a $b), so one value meets one spelling at several lexical positions"""
+    out = []
+    names = ["a", "b", "c"]
+    for _ in range(rng.randint(3, 6)):
+        if depth > 0 and rng.random() < 0.25:
+            out.append({"k": "s", "name": rng.choice(["s", "t"]), "dis": False, "kids": gen_dense(rng, depth - 1)})
+            continue
+        ws, specs = [], []
+        for _ in range(rng.choice([1, 1, 2, 2, 3])):
+            k = rng.random()
+            r = rng.choice(names)
+            r2 = rng.choice(names)
+            if k < 0.25:
+                t = rng.choice(["1", "2", "lit", "x-y"])
+                sp = (None, [("lit", t)])
+            elif k < 0.6:
+                t, sp = "$" + r, (None, [("ref", r)])
+            elif k < 0.7:
+                n = rng.choice([r, "s." + r, "." + r, "t." + r, "s.t." + r])
+                t, sp = "$(%s)" % n, (None, [("ref", n)])
+            elif k < 0.85:
+                t, sp = '"$%s-$%s"' % (r, r2), ('"', [("ref", r), ("lit", "-"), ("ref", r2)])
+            else:
+                t, sp = rng.choice([("p$%s" % r, (None, [("lit", "p"), ("ref", r)])),
+                                    ("'$%s'" % r, ("'", [("lit", "$" + r)])),
+                                    ("$%s$%s" % (r, r2), (None, [("ref", r), ("ref", r2)]))])
+            ws.append(t)
+            specs.append(sp)
+        out.append({"k": "d", "name": rng.choice(names), "dis": False, "words": ws, "specs": specs})
+    return out
+
+
 def render(nodes, indent=""):
     s = ""
     for n in nodes:
@@ -135,7 +169,9 @@ def run(ctx):
         if ctx.time_left() < 25:
             ctx.notes.append("stopped early on time budget")
             break
-        nodes = gen_nodes(rng, rng.choice([0, 1, 2, 3]))
+        dense = i % 4 == 1
+        nodes = gen_dense(rng, rng.choice([0, 1, 2])) if dense else gen_nodes(rng, rng.choice([0, 1, 2, 3]))
+        ctx.count("dense_documents" if dense else "mixed_documents")
         text = render(nodes)
         env = {k: rng.choice(["E" + k, "v w", ""]) for k in ENVN if rng.random() < 0.4}
         try:
@@ -170,6 +206,10 @@ def run(ctx):
             f = clauses(d, out, diff) or lookup_clause(root, d, out, env, diff)
             if f:
                 ctx.fail({"text": text, "env": env, "diff": diff, "definition": d.full_path()}, f)
+        if dense and not diff:
+            f = dense_clause(root, nodes, defs, impl, env)
+            if f:
+                ctx.fail(dict({"text": text, "env": env}, **f[0]), f[1])
         if not diff:
             f = metamorphic(rng, nodes, text, env, root, defs, impl)
             if f:
@@ -221,6 +261,69 @@ def ref_lookup(root, d, name):
                 if o is not d and o.primary_id is not None and o.primary_id < d.primary_id]
         if hits:
             return hits[-1]
+    return None
+
+
+class _Refused(Exception):
+    pass
+
+
+def reference_resolve(root, d, specs, spec_of, env):
+    """the statement read directly, for documents whose words are generated from (quote, fragments) specifications:
+    every reference denotes the nearest earlier definition *seen from the definition that contains the reference*"""
+    out = []
+    for q, frags in specs:
+        if q == "'" or all(k == "lit" for k, _ in frags):
+            out.append(("".join(v for _, v in frags), q))
+            continue
+        vals = []
+        for k, v in frags:
+            if k == "lit":
+                vals.append([(v, None)])
+                continue
+            t = ref_lookup(root, d, v)
+            if t is None:
+                if v in env:
+                    vals.append([(env[v], '"')])
+                    continue
+                raise _Refused("undefined")
+            if t.is_scope:
+                raise _Refused("scope")
+            vals.append(reference_resolve(root, t, spec_of[id(t)], spec_of, env))
+        if q is None and len(frags) == 1:
+            out.extend(vals[0])
+        else:
+            out.append(("".join(" ".join(x for x, _ in ws) for ws in vals), '"'))
+    return out
+
+
+def flat_nodes(nodes):
+    for n in nodes:
+        if n["k"] == "d":
+            yield n
+        else:
+            yield from flat_nodes(n["kids"])
+
+
+def dense_clause(root, nodes, defs, impl, env):
+    """dense documents: every definition against the reference reading"""
+    dn = list(flat_nodes(nodes))
+    if len(dn) != len(defs):
+        return None
+    spec_of = {id(d): n["specs"] for d, n in zip(defs, dn)}
+    from common import quote_tag
+    for d, out in zip(defs, impl):
+        try:
+            want = reference_resolve(root, d, spec_of[id(d)], spec_of, env)
+        except _Refused as e:
+            if out[0] != "err":
+                return ({"definition": d.full_path()}, "reference reading refuses (%s) but the result is %r" % (e, out))
+            continue
+        wantj = ["ok", [[enc(v), quote_tag(q), None] for v, q in want]]
+        if out != wantj:
+            got = out if out[0] != "ok" else [(dec(w[0]), w[1]) for w in out[1]]
+            return ({"definition": d.full_path()},
+                    "%s resolves to %r; read lexically from each referencing position it is %r" % (d.full_path(), got, want))
     return None
 
 
